@@ -402,6 +402,74 @@ def gen_history(rng, pools, tier):
             ops.append({"op": "parse", "s": rng.choice([bad, "31/02/2015", "9999-12-31 23:59 -0500"]), "kw": {"languages": [Lx]} if rng.random() < 0.8 else {"languages": [Lx], "settings": {"TIMEZONE": "UTC"}}, "clock_us": clock()})
             ops.append(dict(rng.choice(CAL[:3]), clock_us=clock()))
             ops.append({"op": "parse", "s": "%02d/%02d/%d" % (rng.randrange(1, 13), rng.randrange(1, 13), rng.randrange(2000, 2030)), "kw": {"languages": ["tl"]}, "clock_us": clock()})
+    elif tmpl < 0.355:
+        # T10 the same digits through different parser families (Jalali / Hijri / Gregorian share the
+        # tokenizer and parser base class): two-digit years, Persian / Arabic-Indic digits, all orders
+        a_, b_, c_ = rng.randrange(1, 13), rng.randrange(1, 30), rng.choice([rng.randrange(0, 100), rng.randrange(1380, 1445), rng.randrange(1990, 2030)])
+        sep = rng.choice(["/", "-", "."])
+        toks = ["%02d" % a_, "%02d" % b_, "%02d" % c_ if c_ < 100 else "%d" % c_]
+        shapes = [toks, toks[::-1], [toks[1], toks[0], toks[2]]]
+        fa_digits = str.maketrans("0123456789", "۰۱۲۳۴۵۶۷۸۹")
+        ar_digits = str.maketrans("0123456789", "٠١٢٣٤٥٦٧٨٩")
+        seq = []
+        for _ in range(rng.choice([2, 3, 4])):
+            num = sep.join(rng.choice(shapes))
+            kind = rng.choice(["jalali", "hijri", "parse", "parse"])
+            if kind == "parse":
+                seq.append({"op": "parse", "s": num, "kw": {"languages": [rng.choice(["en", "fa", "ar", "fr", "tl"])]}, "clock_us": clock()})
+            else:
+                if rng.random() < 0.5:
+                    num = num.translate(fa_digits if kind == "jalali" else ar_digits)
+                seq.append({"op": kind, "s": num, "clock_us": clock()})
+        if not any(o["op"] == "parse" for o in seq):
+            seq.append({"op": "parse", "s": sep.join(rng.choice(shapes)), "kw": {"languages": ["en"]}, "clock_us": clock()})
+        if not any(o["op"] != "parse" for o in seq):
+            seq.insert(0, {"op": rng.choice(["jalali", "hijri"]), "s": sep.join(rng.choice(shapes)), "clock_us": clock()})
+        ops.extend(seq)
+    elif tmpl < 0.38:
+        # T11 the same set of languages given in different orders (order decides precedence, so no
+        # state derived from a language list may be keyed by the set alone)
+        ls = rng.sample([l for l in ["en", "fr", "de", "es", "it", "pt", "nl", "ru", "tr", "pl"] if l in pools["langs"]], rng.choice([2, 2, 3]))
+        perms = [list(ls), list(reversed(ls))]
+        if len(ls) == 3:
+            perms.append([ls[1], ls[2], ls[0]])
+        texts = {}
+        for l_ in ls:
+            Pl = pools["langs"][l_]
+            mn = [m for ml in Pl["months"] for m in ml[:1]]
+            texts[l_] = [draw_text(rng, pools, l_), "xyz %d %s %d abc" % (rng.randrange(1, 29), rng.choice(mn or ["1"]), rng.randrange(2000, 2030))]
+        for _ in range(rng.choice([2, 3, 4])):
+            order_ = rng.choice(perms)
+            l_ = rng.choice(ls)
+            tx = rng.choice(texts[l_])
+            if rng.random() < 0.7:
+                ops.append({"op": "search", "text": tx, "kw": {"languages": list(order_)}, "clock_us": clock()})
+            else:
+                ops.append({"op": "parse", "s": tx.replace("xyz ", "").replace(" abc", ""), "kw": {"languages": list(order_)}, "clock_us": clock()})
+    elif tmpl < 0.40:
+        # T12 aware RELATIVE_BASE values that are the same instant in different offsets (equal under ==,
+        # different wall clocks), together with a TIMEZONE setting; also equal naive/aware wall clocks
+        wall = [rng.randrange(1995, 2035), rng.randrange(1, 13), rng.choice([1, 28, 30, 31, rng.randrange(1, 29)]), rng.randrange(24), rng.randrange(60), 0, 0]
+        try:
+            w0 = dt.datetime(*wall)
+        except ValueError:
+            wall[2] = 28
+            w0 = dt.datetime(*wall)
+        offs = rng.sample([0, 330, 345, -300, 540, -210, 60, 765], 3)
+        tzset = rng.choice(["UTC", "Asia/Kolkata", "America/New_York", "Asia/Tokyo", "Europe/Paris"])
+        phrases = ["2 days ago", "1 month ago", "in 3 hours", "yesterday", "tomorrow at 08:15", "now", "10:30", "March 3"]
+        for off in offs[: rng.choice([2, 3])]:
+            w = w0 + dt.timedelta(minutes=off - offs[0])  # same instant as (w0, offs[0])
+            bv = {"__dt__": [w.year, w.month, w.day, w.hour, w.minute, w.second, w.microsecond], "tz": {"offset_s": off * 60.0}}
+            st_ = {"RELATIVE_BASE": bv}
+            if rng.random() < 0.8:
+                st_["TIMEZONE"] = tzset
+            if rng.random() < 0.3:
+                st_["TO_TIMEZONE"] = rng.choice(["UTC", "Asia/Tokyo"])
+            ops.append({"op": rng.choice(["parse", "parse", "search"]), "s": rng.choice(phrases), "kw": {"languages": ["en"], "settings": st_}, "clock_us": clock()})
+        for o in ops:
+            if o["op"] == "search":
+                o["text"] = "it happened " + o.pop("s")
     for i in range(n):
         r = rng.random()
         L, s = rng.choice(strings)
